@@ -1,7 +1,7 @@
 """Property -> obligations registry.  Section numbers refer to /verif/DESIGN.md."""
 import functools
 
-from .rules import tables, truth, da, order, bond, sampler, own, exc, keys, sib, prov, tok, emit, extra, ring, gaps
+from .rules import tables, truth, da, order, bond, sampler, own, exc, keys, sib, prov, tok, emit, extra, ring, gaps, round7
 
 COMMON_ASSUMPTIONS = [
     "pysmiles, networkx, numpy and RDKit behave as documented (their code is not analysed)",
@@ -144,6 +144,7 @@ R = {
     "prov_rdkit_sanitize": tiered(gaps.prov_rdkit_sanitize),
     "ord_anchor_reset": tiered(gaps.ord_anchor_reset),
     "idx_scan_bound": tiered(gaps.idx_scan_bound),
+    "sel_rotate_component": tiered(round7.sel_rotate_component),
     "sent_numeric_attrs": tiered(extra.sent_numeric_attrs),
     "ord_complete_loops": tiered(extra.ord_complete_loops),
     "own_mutable_defaults_layout": named("own_mutable_defaults_layout", own.own_mutable_defaults, "quick", tuple(own.SKIP_MODULES), 2),
@@ -348,6 +349,16 @@ for _pid, _txt in _LATER.items():
     _sp = PROPERTIES[_pid]
     _sp["decided"] = _sp["decided"] + "; " + _txt
     _sp["explanation"] = EXPL + " Decided for %s: %s. Not decided: %s." % (_pid, _sp["decided"], _sp["undecided"])
+
+# Rules of the seventh seeded round (rules/round7.py, DESIGN section 18): rule -> (properties, floor)
+_ROUND7 = {
+    "sel_rotate_component": (["C19"], {"SEL.rotate-component": 1}),
+}
+for _rn, (_pids, _fl) in _ROUND7.items():
+    for _pid in _pids:
+        PROPERTIES[_pid]["rules"].append(R[_rn])
+        PROPERTIES[_pid]["rule_names"].append(_rn)
+        PROPERTIES[_pid]["floors"].update(_fl)
 
 # Rules for necessary conditions that today's tree does not meet (rules/gaps.py, DESIGN section 16): each is reported and the
 # finding is listed as `known` in known_findings.json for every property it concerns.
